@@ -89,21 +89,101 @@ def _run_one(args):
         shutil.rmtree(tmp, ignore_errors=True)
 
 
+def _seed_items(prop):
+    """Seeded changes (from independent sub-agents) whose target is this property."""
+    import json
+    root = os.path.join(os.path.dirname(os.path.dirname(os.path.abspath(__file__))), 'seeded')
+    out = []
+    if os.path.isdir(root):
+        for d in sorted(os.listdir(root)):
+            mp = os.path.join(root, d, 'meta.json')
+            pp = os.path.join(root, d, 'patch.diff')
+            if os.path.exists(mp) and os.path.exists(pp):
+                try:
+                    if json.load(open(mp)).get('property') == prop:
+                        out.append((d, pp))
+                except Exception:
+                    continue
+    return out
+
+
+def _run_seed(args):
+    prop, repo, name, patch = args
+    import subprocess
+    from .main import run_property
+    tmp = tempfile.mkdtemp(prefix='gsa_seed_')
+    try:
+        copy_sources(repo, tmp)
+        r = subprocess.run(['git', 'apply', '--include', 'src/*', '--include', 'setup.cfg', '--include', 'docs/*', patch], cwd=tmp, capture_output=True, text=True)
+        if r.returncode != 0:
+            return dict(name=f'seeded:{name}', kind='B', status='skipped', detail='patch no longer applies to the current tree')
+        rep, undecided = run_property(prop, tmp, 'quick')
+        viol = [o for o in rep.obs if not o.ok]
+        rules = sorted({o.rule for o in viol})
+        if viol:
+            return dict(name=f'seeded:{name}', kind='B', status='killed', rules=rules)
+        if undecided is not None:
+            return dict(name=f'seeded:{name}', kind='B', status='undecided', detail=undecided, rules=rules)
+        return dict(name=f'seeded:{name}', kind='B', status='missed', detail='no violation reported', rules=rules)
+    finally:
+        shutil.rmtree(tmp, ignore_errors=True)
+
+
+REFACTORINGS = ('flipcmp', 'ifswap', 'commute', 'kwrev', 'retvar', 'rename', 'notnot', 'augexpand', 'withsplit', 'kwargify')
+
+
+def _run_refactoring(args):
+    """Behaviour-preserving whole-package AST rewrite (tools/refactor_fuzz.py): the check must stay silent."""
+    prop, repo, tname = args
+    import ast
+    import importlib.util
+    from .main import run_property
+    here = os.path.dirname(os.path.dirname(os.path.abspath(__file__)))
+    spec = importlib.util.spec_from_file_location('refactor_fuzz', os.path.join(here, 'tools', 'refactor_fuzz.py'))
+    rf = importlib.util.module_from_spec(spec)
+    spec.loader.exec_module(rf)
+    tmp = tempfile.mkdtemp(prefix='gsa_refac_')
+    try:
+        copy_sources(repo, tmp)
+        changed = 0
+        for rel in rf.py_files(tmp):
+            pth = os.path.join(tmp, rel)
+            src = open(pth, encoding='utf-8').read()
+            new = ast.unparse(ast.fix_missing_locations(rf.TRANSFORMS[tname]().visit(ast.parse(src))))
+            if ast.dump(ast.parse(new)) != ast.dump(ast.parse(src)):
+                changed += 1
+                open(pth, 'w', encoding='utf-8').write(new + '\n')
+        name = f'refactoring:{tname}'
+        if not changed:
+            return dict(name=name, kind='E', status='skipped', detail='transform changed nothing')
+        rep, undecided = run_property(prop, tmp, 'quick')
+        viol = [o for o in rep.obs if not o.ok]
+        if viol:
+            return dict(name=name, kind='E', status='false-alarm', detail='; '.join(f'{o.rule} {o.desc[:60]} found={str(o.found)[:50]}' for o in viol[:3]), rules=sorted({o.rule for o in viol}))
+        if undecided is not None:
+            return dict(name=name, kind='E', status='undecided', detail=undecided, rules=[])
+        return dict(name=name, kind='E', status='silent', rules=[])
+    finally:
+        shutil.rmtree(tmp, ignore_errors=True)
+
+
 def run_corpus(prop, repo, seed=0, jobs=None):
     try:
         mod = importlib.import_module(f'gsa.props.{prop.lower()}')
     except ModuleNotFoundError:
         return dict(coverage={}, broken=[])
     variants = getattr(mod, 'VARIANTS', [])
-    if not variants:
-        return dict(coverage=dict(variants_breaking=0, variants_equivalent=0, variants_killed=0, equivalents_silent=0), broken=[])
-    jobs = jobs or min(16, os.cpu_count() or 4, len(variants))
+    jobs = 16
     order = list(range(len(variants)))
     if seed:
         import random
         random.Random(seed).shuffle(order)
-    with ProcessPoolExecutor(max_workers=jobs) as ex:
-        results = list(ex.map(_run_one, [(prop, repo, i) for i in order]))
+    seeds = _seed_items(prop)
+    with ProcessPoolExecutor(max_workers=16) as ex:
+        f1 = ex.map(_run_one, [(prop, repo, i) for i in order])
+        f2 = ex.map(_run_seed, [(prop, repo, n, pth) for (n, pth) in seeds])
+        f3 = ex.map(_run_refactoring, [(prop, repo, t) for t in REFACTORINGS])
+        results = list(f1) + list(f2) + list(f3)
     nb = sum(1 for r in results if r['kind'] == 'B' and r['status'] != 'skipped')
     ne = sum(1 for r in results if r['kind'] == 'E' and r['status'] != 'skipped')
     killed = sum(1 for r in results if r['status'] == 'killed')
@@ -112,7 +192,7 @@ def run_corpus(prop, repo, seed=0, jobs=None):
     broken = [f"{r['kind']} variant {r['name']!r}: {r['status']} ({r.get('detail', '')})"
               for r in results if r['status'] in ('missed', 'wrong-rule', 'false-alarm', 'undecided')]
     cov = dict(variants_breaking=nb, variants_equivalent=ne, variants_killed=killed, equivalents_silent=silent,
-               variants_skipped=skipped,
+               variants_skipped=skipped, seeded_changes=len(seeds), refactorings=len(REFACTORINGS),
                variant_results=[dict(name=r['name'], kind=r['kind'], status=r['status'], rules=r.get('rules', [])) for r in results])
     return dict(coverage=cov, broken=broken)
 
